@@ -490,6 +490,8 @@ class Verifier(Engine):
             return self.call_frame(how, txt, node, st)
         if callable(how) and not isinstance(how, Contract):
             return how(self, st, node, args, kwargs)
+        if isinstance(how, str) and how.startswith("inline:"):
+            return self.inline_simple(how[7:], txt, st, args, kwargs)
         if how == "inline":
             raise GenerationError(f"inline call of {txt} inside an expression")
         ghost_bind = {}
@@ -504,6 +506,33 @@ class Verifier(Engine):
             recv_path = recv.path
         ghosts = {g: self.eval(ast.parse(e, mode="eval").body, st, True) for g, e in ghost_bind.items()}
         return self.apply_contract(callee, txt, recv_path, st, args, kwargs, ghosts)
+
+    def inline_simple(self, qualname: str, txt: str, st: State, args, kwargs) -> Val:
+        """Expand a call of a repository function whose body is a single `return <expr>` (docstring allowed)."""
+        fi = self.repo.func(qualname)
+        self.check_undecorated(fi)
+        body = [s for s in fi.node.body if not (isinstance(s, ast.Expr) and isinstance(s.value, ast.Constant))]
+        if len(body) != 1 or not isinstance(body[0], ast.Return) or body[0].value is None:
+            raise GenerationError(f"{qualname} is not a single-return function: cannot inline in an expression")
+        params = [a.arg for a in fi.node.args.args]
+        defaults = fi.node.args.defaults
+        env = {}
+        for k, p in enumerate(params):
+            if k < len(args):
+                env[p] = args[k]
+            elif p in kwargs:
+                env[p] = kwargs[p]
+            else:
+                di = k - (len(params) - len(defaults))
+                if di < 0:
+                    raise GenerationError(f"missing argument {p} for {qualname}")
+                env[p] = self.eval(defaults[di], State())
+        saved, saved_c = st.env, self.c
+        st.env = env
+        try:
+            return self.eval(body[0].value, st)
+        finally:
+            st.env = saved
 
     def _callee_env(self, callee: Contract, recv_path, st, args, kwargs):
         env = {}
@@ -715,6 +744,8 @@ class Verifier(Engine):
                 if isinstance(how, FrameCall):
                     for p in how.modifies:
                         paths.add(tuple(p.split(".")))
+                elif isinstance(how, str) and how.startswith("inline:"):
+                    pass
                 elif how is not None and how != "inline" and not callable(how) or isinstance(how, Contract):
                     callee = self.registry.get(how) if isinstance(how, str) else how
                     recv_path = None
